@@ -69,7 +69,18 @@ def run(prog, chk):
             loops.append(s)
     if not bit_ids:
         raise AnalysisBroken('reset: target bit mask (1 << q) not found')
-    if one_decl is None or dist_id is None:
+    # the outcome may be computed in place or by a file-local helper called with (generator, p0, p1)
+    helper = None
+    if one_decl is None:
+        for s_ in stmts:
+            if s_['k'] == 'decls':
+                for v in s_['d']:
+                    init = SX.strip(v.get('init')) if SX.is_node(v.get('init')) else None
+                    if v['type'] in ('bool', 'int') and SX.is_node(init) and init.get('k') == 'call':
+                        fs = [h for h in prog.resolve(init) if h.body]
+                        if len(fs) == 1 and any('uniform_real_distribution<' in x.get('type', '') for x in SX.walk(fs[0].body) if x['k'] == 'var'):
+                            one_decl, helper = v, (fs[0], init)
+    if one_decl is None:
         chk.ob('R04.1', rs, rs.ln, False,
                'reset does not draw from the random generator: a projection-style reset post-selects the partners of an entangled target '
                '(e.g. Bell pair, reset one half: the partner then reads 0 with certainty instead of 50/50)', key='samples')
@@ -79,6 +90,10 @@ def run(prog, chk):
     l1 = KP.full_state_loop(loops[0], amp)
     l2 = KP.full_state_loop(loops[1], amp)
     if l1 is None or l2 is None:
+        why = [KP.partial_state_loop(l, amp) for l, x in ((loops[0], l1), (loops[1], l2)) if x is None]
+        if all(why):
+            chk.ob('R04.1', rs, rs.ln, False, 'reset does not sweep the whole state vector: %s' % ' / '.join(why), key='weights')
+            return
         raise AnalysisBroken('reset: loops are not full-range loops over the state vector')
     # ---- accumulation ------------------------------------------------------------------------
     it = KP.PairIter(amp, l1[0]['id'], bit_ids, {}, {})
@@ -100,78 +115,113 @@ def run(prog, chk):
     if not okacc:
         return
     p0, p1, r = sp.Symbol('p0', positive=True), sp.Symbol('p1', positive=True), sp.Symbol('r', nonnegative=True)
-    # ---- outcome formula: evaluated over the sign atoms ---------------------------------------
-    init = SX.strip(one_decl['init'])
-    draws = [x for x in SX.walk(init) if x['k'] == 'opcall' and x['op'] == '()' and SX.strip(x['args'][0]).get('id') == dist_id]
-    okd = len(draws) == 1 and SX.is_node(SX.strip(draws[0]['args'][1])) and SX.strip(draws[0]['args'][1]).get('global') and 'mersenne_twister' in SX.strip(draws[0]['args'][1]).get('t', '')
-    chk.ob('R04.1', rs, one_decl.get('ln', rs.ln), okd, 'exactly one draw from the process generator decides the outcome', key='one-draw')
+    # ---- where the outcome is computed ---------------------------------------------------------
+    if helper is not None:
+        H, hcall = helper
+        hargs = SX.real_args(hcall)
+        alias = {}
+        gen_param = None
+        for prm, a in zip(H.params, hargs):
+            a = SX.strip(a)
+            if a.get('id') == p0_id[0]:
+                alias[prm['id']] = 'p0'
+            elif a.get('id') == p1_id[0]:
+                alias[prm['id']] = 'p1'
+            elif a.get('global') and 'mersenne_twister' in a.get('t', ''):
+                gen_param = prm
+        body_fn, body = H, H.body
+        hdist = [v for v in SX.walk(H.body) if v['k'] == 'var' and 'uniform_real_distribution<' in v['type']]
+        dist_id = hdist[0]['id'] if hdist else None
+        if hdist:
+            vals = [x.get('v') for x in SX.real_args(SX.strip(hdist[0]['init'])) if SX.is_node(x)]
+            chk.ob('R04.1', H, hdist[0].get('ln', H.ln), vals == [0.0, 1.0], 'draw distribution is uniform on [0,1): %s' % vals, key='dist')
+    else:
+        alias = {p0_id[0]: 'p0', p1_id[0]: 'p1'}
+        gen_param = None
+        body_fn, body = rs, one_decl['init']
+    draws = [x for x in SX.walk(body) if x['k'] == 'opcall' and x['op'] == '()' and SX.strip(x['args'][0]).get('id') == dist_id]
+    okd = len(draws) == 1
+    gen_ok = False
+    gen_why = 'no draw found'
+    if okd:
+        ga = SX.strip(draws[0]['args'][1])
+        if ga.get('global') and 'mersenne_twister' in ga.get('t', ''):
+            gen_ok, gen_why = True, 'the process generator'
+        elif gen_param is not None and ga.get('id') == gen_param['id']:
+            byref = gen_param['type'].rstrip().endswith('&') and not gen_param['type'].startswith('const')
+            gen_ok = byref
+            gen_why = 'the process generator passed by reference' if byref else \
+                'a COPY of the process generator (parameter type %s): the generator itself is never advanced, so consecutive resets and measurements reuse the same random number' % gen_param['type']
+        else:
+            gen_why = 'generator argument %s' % SX.show(ga)[:30]
+    chk.ob('R04.1', body_fn, one_decl.get('ln', rs.ln), okd and gen_ok, 'exactly one draw decides the outcome, taken from %s' % gen_why, key='one-draw')
+    # algebraic form of the comparison that uses the draw
+    form_ok, form_why = False, 'no comparison uses the draw'
+    if okd:
+        from ..ktry import parent_map
+        pm = parent_map(body if helper is None else H.body)
+        cur = draws[0]
+        cmpn = None
+        while id(cur) in pm:
+            cur = pm[id(cur)]
+            if SX.cmp_parts(cur):
+                cmpn = cur
+                break
+        if cmpn is not None:
+            cp = SX.cmp_parts(cmpn)
 
-    def ev(e, z0, z1, c):
-        """boolean value of the outcome expression when p0 is zero (z0), p1 is zero (z1) and the Born comparison is c"""
-        e = SX.strip(e)
-        if e['k'] == 'bin' and e['op'] == '||':
-            return ev(e['l'], z0, z1, c) or ev(e['r'], z0, z1, c)
-        if e['k'] == 'bin' and e['op'] == '&&':
-            return ev(e['l'], z0, z1, c) and ev(e['r'], z0, z1, c)
-        if e['k'] == 'un' and e['op'] == '!':
-            return not ev(e['e'], z0, z1, c)
-        cp = SX.cmp_parts(e)
-        if cp:
-            has_draw = any(x is draws[0] for x in SX.walk(e)) if draws else False
-            if has_draw:
-                # must be  r·(p0+p1) < p1   (or r < p1/(p0+p1))
-                env = {p0_id[0]: p0, p1_id[0]: p1}
-
-                def rd(n):
-                    raise KS.Unfoldable('read')
-                def conv(x):
-                    x = SX.strip(x)
-                    if x is draws[0]:
-                        return r
-                    if x['k'] == 'bin' and x['op'] in ('+', '-', '*', '/'):
-                        a, b = conv(x['l']), conv(x['r'])
-                        return {'+': a + b, '-': a - b, '*': a * b, '/': a / b}[x['op']]
-                    return KS.to_sympy(x, env)
-                lhs, rhs = conv(cp[1]), conv(cp[2])
-                op = cp[0]
+            def conv(x):
+                x = SX.strip(x)
+                if x is draws[0]:
+                    return r
+                if x.get('k') == 'ref' and x.get('id') in alias:
+                    return p0 if alias[x['id']] == 'p0' else p1
+                if x.get('k') == 'bin' and x['op'] in ('+', '-', '*', '/'):
+                    a, b = conv(x['l']), conv(x['r'])
+                    return {'+': a + b, '-': a - b, '*': a * b, '/': a / b}[x['op']]
+                return KS.to_sympy(x, {})
+            try:
+                lhs, rhs, op = conv(cp[1]), conv(cp[2]), cp[0]
                 if op == '>':
                     lhs, rhs, op = rhs, lhs, '<'
                 if op != '<':
-                    raise _Mismatch('Born comparison must be the strict r·(p0+p1) < p1')
-                # equivalent to r < p1/(p0+p1)  ⇔  lhs - rhs  has the sign of  r(p0+p1) - p1
-                ratio = sp.simplify((lhs - rhs) / (r * (p0 + p1) - p1))
-                if not (ratio.is_positive and ratio.free_symbols <= {p0, p1}):
-                    raise _Mismatch('the draw is compared as %s < %s, which is not equivalent to r·(p0+p1) < p1' % (lhs, rhs))
-                return c
-            # sign tests of the weights
-            a, b = SX.strip(cp[1]), SX.strip(cp[2])
-            for x, y, op in ((a, b, cp[0]), (b, a, {'<': '>', '>': '<', '<=': '>=', '>=': '<=', '==': '==', '!=': '!='}[cp[0]])):
-                if x.get('k') == 'ref' and x.get('id') in (p0_id[0], p1_id[0]) and y.get('v') in (0, 0.0):
-                    z = z0 if x['id'] == p0_id[0] else z1
-                    return {'==': z, '!=': not z, '>': not z, '<=': z, '<': False, '>=': True}[op]
-        raise KS.Unfoldable('outcome term ' + SX.show(e)[:50])
-    try:
-        tbl = {}
-        for z0 in (False, True):
-            for z1 in (False, True):
-                for c in (False, True):
-                    tbl[(z0, z1, c)] = bool(ev(init, z0, z1, c))
-    except _Mismatch as e:
-        chk.ob('R04.1', rs, one_decl.get('ln', rs.ln), False, 'outcome formula: %s' % e, key='born-probability')
-        tbl = None
-    except KS.Unfoldable as e:
-        raise AnalysisBroken('reset outcome formula is outside the recognised form: %s' % e)
-    if tbl is not None:
-        bad = []
-        for (z0, z1, c), v in tbl.items():
+                    form_why = 'the Born comparison must be the strict r·(p0+p1) < p1 (found %s)' % op
+                else:
+                    ratio = sp.simplify((lhs - rhs) / (r * (p0 + p1) - p1))
+                    form_ok = bool(ratio.is_positive and ratio.free_symbols <= {p0, p1})
+                    form_why = 'the draw is compared as %s < %s' % (lhs, rhs)
+            except KS.Unfoldable as e:
+                raise AnalysisBroken('reset outcome comparison is outside the recognised form: %s' % e)
+    chk.ob('R04.1', body_fn, one_decl.get('ln', rs.ln), form_ok, 'outcome 1 needs r·(p0+p1) < p1, i.e. probability p1/(p0+p1): %s' % form_why, key='born-comparison')
+    # truth table of the outcome over (p0 = 0?, p1 = 0?, comparison) by abstract evaluation of the extracted code
+    from ..kabs import Interp, Unsupported
+    bad = []
+    for z0 in (False, True):
+        for z1 in (False, True):
             if z0 and z1:
-                continue                      # zero vector: not a state
-            want = True if z0 else (False if z1 else c)
-            if v != want:
-                bad.append(('p0=0' if z0 else 'p0>0', 'p1=0' if z1 else 'p1>0', 'r(p0+p1)<p1' if c else 'r(p0+p1)>=p1', v))
-        chk.ob('R04.1', rs, one_decl.get('ln', rs.ln), not bad,
-               'outcome is 1 iff p0 = 0, or p0,p1 > 0 and r·(p0+p1) < p1 (Born probability p1/(p0+p1); an empty branch is never chosen); mismatches: %s' % bad[:3],
-               key='born-probability')
+                continue
+            for c in (False, True):
+                v0, v1 = (0.0 if z0 else 0.5), (0.0 if z1 else 0.5)
+                rv = 0.25 if c else 0.75
+                if z0 or z1:
+                    rv = 0.25 if c else 1.5   # with one weight zero the comparison value is irrelevant to the expected result
+                models = {'op:()': lambda it_, e, env, rv=rv: rv}
+                it_ = Interp(prog, models)
+                try:
+                    if helper is not None:
+                        argv = []
+                        for prm in H.params:
+                            argv.append(v0 if alias.get(prm['id']) == 'p0' else (v1 if alias.get(prm['id']) == 'p1' else 'GEN'))
+                        got = it_.call_fn(H, argv)
+                    else:
+                        got = it_.expr(one_decl['init'], {p0_id[0]: v0, p1_id[0]: v1, dist_id: 'DIST'})
+                except Unsupported as e:
+                    raise AnalysisBroken('reset outcome formula: %s' % e)
+                want = True if z0 else (False if z1 else c)
+                if bool(got) != want:
+                    bad.append(('p0=0' if z0 else 'p0>0', 'p1=0' if z1 else 'p1>0', 'r(p0+p1)<p1' if c else 'r(p0+p1)>=p1', bool(got)))
+    chk.ob('R04.1', body_fn, one_decl.get('ln', rs.ln), not bad,
+           'outcome is 1 iff p0 = 0, or p0,p1 > 0 and r·(p0+p1) < p1 (an empty branch is never chosen); mismatches: %s' % bad[:3], key='born-probability')
     # ---- per-pair transformer ------------------------------------------------------------------
     for one in (True, False):
         scal = {p0_id[0]: p0, p1_id[0]: p1}
